@@ -8,6 +8,7 @@ import (
 
 	sdk "github.com/cosmos/cosmos-sdk/types"
 
+	"github.com/comdex-official/comdex/x/liquidity/amm"
 	liqtypes "github.com/comdex-official/comdex/x/liquidity/types"
 	rewardskeeper "github.com/comdex-official/comdex/x/rewards/keeper"
 	rewardstypes "github.com/comdex-official/comdex/x/rewards/types"
@@ -751,7 +752,7 @@ func (t *dexTracker) checkGauges(w *World, s *dexSnap) {
 		}
 		if master {
 			w.Stats.Probe("c19.master_gauge_epoch")
-			if b, ok := t.masterGaugeBounds(w, tr.g, poolID, tr.alloc); ok {
+			if b, ok := t.masterGaugeBounds(w, s, tr.g, poolID, tr.alloc); ok {
 				for _, f := range sortedKeys(b) {
 					if cur, has := bound[f]; has {
 						cur.Add(cur, b[f])
@@ -936,8 +937,20 @@ func (o *dexOracle) afterC19(w *World, ev *Event, res Result) *Violation {
 // position is valued as twice its redeemable amount of the pair's oracle-priced coin (quote coin first) at the oracle
 // price. Redeemable amounts are integers truncated by the module: each is bracketed by [q-1, q+1].
 // ok=false when the configuration is one this model does not cover (explicit child list, unpriced master pool, ...).
-func (t *dexTracker) masterGaugeBounds(w *World, g rewardstypes.Gauge, masterPool uint64, alloc sdk.Int) (map[string]*big.Rat, bool) {
+func (t *dexTracker) masterGaugeBounds(w *World, s *dexSnap, g rewardstypes.Gauge, masterPool uint64, alloc sdk.Int) (map[string]*big.Rat, bool) {
 	ctx := w.Ctx()
+	// the distribution ran inside this BeginBlock; if the same BeginBlock also moved an oracle price, the prices read now
+	// may not be the ones the distribution saw: no per-farmer statement for this epoch
+	for _, a := range w.Dex.Assets {
+		cur := ""
+		if tw, ok := w.App.MarketKeeper.GetTwa(ctx, a.ID); ok {
+			cur = fmt.Sprintf("%d/%v", tw.Twa, tw.IsPriceActive)
+		}
+		if s.twa != nil && s.twa[a.ID] != cur {
+			w.Stats.Probe("c19.master_gauge_epoch_with_price_update_skipped")
+			return nil, false
+		}
+	}
 	lk := w.App.LiquidityKeeper
 	md := g.GetLiquidityMetaData()
 	if md == nil || len(md.ChildPoolIds) != 0 {
@@ -970,15 +983,21 @@ func (t *dexTracker) masterGaugeBounds(w *World, g rewardstypes.Gauge, masterPoo
 		if asset.Denom == pair.QuoteCoinDenom {
 			r = rx
 		}
-		unit := new(big.Rat).SetFrac(new(big.Int).SetUint64(twa.Twa*2), asset.Decimals.BigInt())
+		unit := new(big.Rat).SetFrac(new(big.Int).Mul(new(big.Int).SetUint64(twa.Twa), big.NewInt(2)), asset.Decimals.BigInt())
+		quotePriced := asset.Denom == pair.QuoteCoinDenom
+		_ = r
 		return func(farmed sdk.Int) iv {
-			q := new(big.Int).Quo(new(big.Int).Mul(r.BigInt(), farmed.BigInt()), ps.BigInt())
-			lo := new(big.Int).Sub(q, bigOne)
-			if lo.Sign() < 0 {
-				lo.SetInt64(0)
+			// the module's own redeemable amounts (amm.Withdraw with a zero fee), valued exactly
+			x, y := amm.Withdraw(rx, ry, ps, farmed, sdk.ZeroDec())
+			if x.IsZero() && y.IsZero() {
+				return iv{new(big.Rat), new(big.Rat)} // the module skips such a position
 			}
-			hi := new(big.Int).Add(q, bigOne)
-			return iv{new(big.Rat).Mul(new(big.Rat).SetInt(lo), unit), new(big.Rat).Mul(new(big.Rat).SetInt(hi), unit)}
+			amt := y
+			if quotePriced {
+				amt = x
+			}
+			v := new(big.Rat).Mul(new(big.Rat).SetInt(amt.BigInt()), unit)
+			return iv{v, v}
 		}, true
 	}
 	mv, ok := valuer(masterPool)
@@ -1048,9 +1067,11 @@ func (t *dexTracker) masterGaugeBounds(w *World, g rewardstypes.Gauge, masterPoo
 		if share.Cmp(big.NewRat(1, 1)) > 0 {
 			share = big.NewRat(1, 1)
 		}
+		// exact valuation: the payout is the floor of the share; allowance 1e-9 relative (18-decimal intermediate
+		// results, float64 conversion) plus 1e-6 of a unit
 		b := new(big.Rat).Mul(share, ratInt(alloc))
-		b.Mul(b, new(big.Rat).Add(big.NewRat(1, 1), big.NewRat(1, 1_000_000_000_000)))
-		b.Add(b, big.NewRat(1, 1))
+		b.Mul(b, new(big.Rat).Add(big.NewRat(1, 1), big.NewRat(1, 1_000_000_000)))
+		b.Add(b, big.NewRat(1, 1_000_000))
 		out[f.Farmer] = b
 	}
 	w.Stats.Probe("c19.master_gauge_per_farmer_bound")
